@@ -562,6 +562,10 @@ def run(ctx):
     vfiles = ["Interp/QOrd.v", "Interp/RfiModel.v", "Interp/SplineModel.v", "Gen/RangeGen.v", "Interp/RfiProofs.v",
               "Interp/SplineProofs.v", "Interp/RangeProofs.v", "Interp/RfiRational.v", "Interp/C10Lemmas.v", "Properties_C10.v"]
     vfiles = [v for v in vfiles if os.path.exists(os.path.join(vplib.COQDIR, v))]
+    if tr is None:
+        # Gen/RangeGen.v on disk is stale: the theorems that depend on it are not discharged
+        vfiles = [v for v in vfiles if v not in ("Gen/RangeGen.v", "Interp/RangeProofs.v", "Properties_C10.v")]
+        ctx.obligation("coq:Interp/RangeProofs.v + Properties_C10.v", False, "Gen/RangeGen.v could not be regenerated")
     ok, res = ctx.coq_obligations(vfiles)
     if not ok:
         for v in vfiles:
@@ -852,6 +856,8 @@ def handle_failure(ctx, R, case, why, broken):
 
 
 def save_corpus(case):
+    if os.environ.get("VERIF_REPO", "/repo") != "/repo":
+        return                      # experiments on a private (mutated) copy do not feed the corpus
     d = os.path.join(vplib.VERIF, "corpus", "C10")
     p = os.path.join(d, "found.txt")
     try:
@@ -873,6 +879,11 @@ def coq_decisions(ctx, items):
             "Eval vm_compute in [" + "; ".join("%s_reject %s %s %s %s" % (s, q(a), q(b), q(c), q(d)) for s, a, b, c, d in items) + "]."]
     rc, out, err = ctx.coq_eval("rangecases", "\n".join(body) + "\n", timeout=300)
     if rc != 0:
+        # (a concurrent `make` of the shared coq/ tree can leave .vo files momentarily inconsistent)
+        ctx.coq_make(["Gen/RangeGen.vo"])
+        rc, out, err = ctx.coq_eval("rangecases", "\n".join(body) + "\n", timeout=300)
+    if rc != 0:
+        ctx.log("coq_eval of the range decisions failed:", err[-300:])
         return None
     vals = re.findall(r"\b(true|false)\b", out.split(":")[0])
     return [v == "true" for v in vals] if len(vals) == len(items) else None
